@@ -27,6 +27,8 @@ AS = K
 for i, a in enumerate(sys.argv):
     if a == '--as':
         AS = sys.argv[i + 1]
+    if a == '--src':
+        SRC = sys.argv[i + 1]
 DEST = f'/verif/seeded/{PID}-{AS}'
 PY = '/venv/bin/python'
 
